@@ -180,7 +180,8 @@ def jobs(tier):
     def add(op, S, N, uses, **kw):
         # all 7 exception kinds with one item per source; the three kinds the library could
         # treat specially (Exception, AttributeError, BaseException subclass) at full length
-        for n, yr in ((1, (0, NF - 1)), (N, (0, 2) if q else (0, NF - 1))):
+        ysplit = kw.pop("ysplit", False)
+        for n, yr in (((1, (0, 3)), (1, (4, NF - 1))) if ysplit else ((1, (0, NF - 1)),)) + ((N, (0, 2) if q else (0, NF - 1)),):
             if q and n > 1 and kw.get("fl") == "iter":
                 continue
             part = {"op": op, "S": S, "N": n, "X": (1, min(uses, 2 * n * S + S + 1)), "Y": yr}
@@ -205,8 +206,8 @@ def jobs(tier):
             for b1 in (False, True):
                 add("merge", 2, 2, 8, fl=fl, ffl=ffl, b0=b0, b1=b1)
         add("compress", 2, 2, 6, fl=fl, ffl=ffl)
-    add("islice", 1, 2, 5, fl="agen", ffl="def", form=3, PR=2, p2=2, b0=False, b1=False, b2=False)
-    add("islice", 1, 2, 5, fl="acls", ffl="def", form=3, PR=2, p2=2, b0=False, b1=False, b2=False)
+    add("islice", 1, 2, 5, fl="agen", ffl="def", form=3, PR=2, p2=2, b0=False, b1=False, b2=False, ysplit=True)
+    add("islice", 1, 2, 5, fl="acls", ffl="def", form=3, PR=2, p2=2, b0=False, b1=False, b2=False, ysplit=True)
     for b0 in (False, True):
         add("merge", 1, 2, 6, fl="agen", ffl="def", b0=b0, b1=True)
         add("merge", 1, 2, 6, fl="acls", ffl="defaw", b0=b0, b1=True)
